@@ -234,7 +234,7 @@ fn main() {
         }
         let case = Case {
             workload: r["workload"].as_str().unwrap().chars().collect(),
-            faults: r["faults"].as_array().unwrap().iter().map(|f| (f[0].as_u64().unwrap() as usize, if f[1] == "fail" { ObjFault::Fail } else { ObjFault::TruncatedPut })).collect(),
+            faults: r["faults"].as_array().unwrap().iter().map(|f| (f[0].as_u64().unwrap() as usize, if f[1] == "fail" { ObjFault::Fail } else if f[1] == "corrupt-read" { ObjFault::CorruptRead } else { ObjFault::TruncatedPut })).collect(),
         };
         let run = run_case(&case);
         for (i, o) in run.log.iter().enumerate() {
@@ -270,11 +270,15 @@ fn main() {
         cases.push(base);
         let k = run.log.len();
         let puts: BTreeSet<usize> = run.log.iter().enumerate().filter(|(_, o)| o.kind == "put").map(|(i, _)| i).collect();
+        let gets: BTreeSet<usize> = run.log.iter().enumerate().filter(|(_, o)| o.kind == "get" && o.ok).map(|(i, _)| i).collect();
         let mut singles: Vec<(usize, ObjFault)> = Vec::new();
         for i in 0..k {
             singles.push((i, ObjFault::Fail));
             if puts.contains(&i) {
                 singles.push((i, ObjFault::TruncatedPut));
+            }
+            if gets.contains(&i) {
+                singles.push((i, ObjFault::CorruptRead));
             }
         }
         for s in &singles {
@@ -315,7 +319,7 @@ fn main() {
     let coverage = json!({
         "evaluations": cases.len() as u64 + wb,
         "distinct_nontrivial": distinct.lock().unwrap().len(),
-        "rule": "workload = every sequence of <=10 (thorough 11) operations over {push a fresh update, flush, compact} containing a push and a flush; fault plan = none, every single store-call index x {transient failure; for puts also truncated object + error} plus bursts of 2-3 consecutive failing calls, plus all ordered pairs of faults for workloads of <=5 (thorough 7) ops; each case runs the real StreamingPersistence/Compactor to the end with the process staying up; then EVERY prefix of the store-operation log (plus the torn-put variant of each successful put) is recovered with the real RecoveryManager; distinct_nontrivial = distinct store-operation histories",
+        "rule": "workload = every sequence of <=10 (thorough 11) operations over {push a fresh update, flush, compact} containing a push and a flush; fault plan = none, every single store-call index x {transient failure; for puts also truncated object + error; for gets also a successful read with one flipped byte} plus bursts of 2-3 consecutive failing calls, plus all ordered pairs of faults for workloads of <=5 (thorough 7) ops; each case runs the real StreamingPersistence/Compactor to the end with the process staying up; then EVERY prefix of the store-operation log (plus the torn-put variant of each successful put) is recovered with the real RecoveryManager; distinct_nontrivial = distinct store-operation histories",
         "workloads": workloads.len(),
         "cases": cases.len(),
         "cases_in_which_a_fault_fired": faults_hit.load(Ordering::Relaxed),
